@@ -326,14 +326,18 @@ func (j *nestedjoinmerge[T]) handleCollectionDelete(e Event[Collection[T]]) {
 		var e Event[T]
 		// We don't see this in our cache, so this is a real delete
 		if res == nil {
-			// Send a delete event for the merged version of this key
-			// Use the merge of the old items as the old value
 			if !ok {
-				// This shouldn't happen; log it and fall back to the event's old Item
-				msg := "NestedJoinWithMergeCollection: No item found in outputs for key %s during collection delete, sending delete event with event old value"
-				j.log.Warnf(msg, keyString)
-				oldItem = *oldCollectionValue.GetKey(keyString)
+				// The key is already gone from our outputs, and handlers have been told so. Merges are always
+				// computed over the live set of collections, so an event handled between the removal of this
+				// collection and now (a sub-collection event for the key, or the delete of another collection
+				// in the same batch) has already observed the removal. There is nothing left to publish.
+				if j.log.DebugEnabled() {
+					j.log.WithLabels("res", key).Debugf("key already removed, skipping delete")
+				}
+				continue
 			}
+			// Send a delete event for the merged version of this key
+			// Use the merged item from the cache as the old value
 			delete(j.outputs, key)
 			if j.log.DebugEnabled() {
 				j.log.WithLabels("res", key).Debugf("handled delete")
@@ -344,6 +348,10 @@ func (j *nestedjoinmerge[T]) handleCollectionDelete(e Event[Collection[T]]) {
 				// If we don't have the old item, then this is actually an add
 				e = Event[T]{New: res, Event: controllers.EventAdd}
 			} else {
+				if Equal(oldItem, *res) {
+					// An earlier event already computed the merge without this collection; no-op.
+					continue
+				}
 				// There are some versions of this key still in the overall collection
 				// send an update with the new merged version and the old version from
 				// the cache
